@@ -18,6 +18,8 @@ import common
 from props import c11
 
 PROP = "C20"
+F_SMOOTH = "C20-sparse-smooth-int-overflow"
+F_MOMENT = "C20-add-pixel-int-overflow"
 HERE = os.path.dirname(os.path.dirname(os.path.abspath(__file__)))
 DRIVER = os.path.join(HERE, "c20_driver.py")
 THREADS = [1, 4, 16]
@@ -268,25 +270,28 @@ class Replayer(object):
                 why = (first[0][:220] if first else ("signal %d" % -p.returncode if p.returncode < 0 else "sanitizer exit %d" % p.returncode))
                 bad = part[last]
                 self.stats["sanitizer_aborts"] += 1
-                self.chk.violation("%s build%s: %s while executing [%s] %s" % (
-                    "sanitizer" if flavour == "asan" else "normal", " threads=%s" % threads if threads else "", why,
-                    describe(bad), " | ".join(frames)),
-                    {"lines": [bad], "flavour": flavour, "threads": threads, "stderr": p.stderr[-3000:]})
-                # the verdicts of the cases before the crash died with the child: run that prefix again on its own
-                if last > 0:
-                    self.run(part[:last], flavour, threads, tag, timeout)
-                self.account([bad], flavour, threads, None)
+                if not self.known(bad, p.stderr):
+                    self.chk.violation("%s build%s: %s while executing [%s] %s" % (
+                        "sanitizer" if flavour == "asan" else "normal", " threads=%s" % threads if threads else "", why,
+                        describe(bad), " | ".join(frames)),
+                        {"lines": [bad], "flavour": flavour, "threads": threads, "stderr": p.stderr[-3000:]})
+                # the verdicts of the cases before the crash are in the child's side log
+                for ev in self.read_log(opath + ".log"):
+                    if ev["idx"] >= last:
+                        continue
+                    if ev["t"] == "p":
+                        self.problem(part[ev["idx"]], ev["problems"], flavour, threads)
+                    elif ev["t"] == "r":
+                        k = part[ev["idx"]]["d"]["k"]
+                        self.rejected.setdefault(k, {"n": 0, "why": ev["why"], "example": part[ev["idx"]]["d"]})["n"] += 1
+                self.account(part[:last + 1], flavour, threads, None)
                 start += last + 1
                 if len(self.chk.violations) > 20:
                     return
                 continue
             self.account(part, flavour, threads, out)
             for pr in out["problems"]:
-                bad = part[pr["idx"]]
-                self.chk.violation("%s build%s: [%s] %s" % (
-                    "sanitizer" if flavour == "asan" else "normal", " threads=%s" % threads if threads else "",
-                    describe(bad), "; ".join(pr["problems"][:3])[:600]),
-                    {"lines": [bad], "flavour": flavour, "threads": threads})
+                self.problem(part[pr["idx"]], pr["problems"], flavour, threads)
                 if len(self.chk.violations) > 20:
                     return
             for idx, why in out["rejected"]:
@@ -303,6 +308,46 @@ class Replayer(object):
             key = "asan" if flavour == "asan" else "thread"
             self.stats[key + "_calls"] += out["calls"]
             start = len(cases)
+
+    @staticmethod
+    def read_log(path):
+        out = []
+        try:
+            for line in open(path):
+                try:
+                    out.append(json.loads(line))
+                except ValueError:
+                    pass
+        except IOError:
+            pass
+        return out
+
+    def known(self, bad, text):
+        """structural match of a known finding: the entry's class AND the specification's attribution"""
+        if bad.get("src", "kc") != "kc":
+            return False
+        d = bad["d"]
+        if d["k"] == "sparse_smooth" and bad.get("intfits") is False and d["nf"] - 1 > 46340 and \
+                (("signed integer overflow" in text and "sparse_smooth" in text) or "sparse_smooth s:" in text):
+            if self.chk.finding(F_SMOOTH) is not None:
+                self.chk.known_finding(F_SMOOTH, "sparse_smooth squares a column difference in int: pixels of one row more "
+                                       "than 46340 columns apart overflow (UBSan) and corrupt the smoothed values")
+                return True
+        if d["k"] == "blobproperties" and bad.get("intfits") is False and max(d["nf"], d["ns"]) - 1 > 46340 and \
+                (("signed integer overflow" in text and "add_pixel" in text) or "blobproperties results" in text):
+            if self.chk.finding(F_MOMENT) is not None:
+                self.chk.known_finding(F_MOMENT, "add_pixel forms f*f, s*s, s*f in int: pixels beyond column/row 46340 "
+                                       "overflow (UBSan) and corrupt the second-moment sums")
+                return True
+        return False
+
+    def problem(self, bad, problems, flavour, threads):
+        if self.known(bad, "; ".join(problems)):
+            return
+        self.chk.violation("%s build%s: [%s] %s" % (
+            "sanitizer" if flavour == "asan" else "normal", " threads=%s" % threads if threads else "",
+            describe(bad), "; ".join(problems[:3])[:600]),
+            {"lines": [bad], "flavour": flavour, "threads": threads})
 
     def account(self, cases, flavour, threads, out):
         chk = self.chk
@@ -328,7 +373,7 @@ def thread_subset(desc, tier):
     for c in desc:
         d = c["d"]
         large = d["ns"] * d["nf"] >= 4096 or d["n"] >= 4095
-        if large or rng.rand() < (0.02 if tier == "quick" else 0.25):
+        if (large and (tier == "quick" or rng.rand() < 0.5)) or rng.rand() < (0.02 if tier == "quick" else 0.05):
             out.append(c)
     return out
 
